@@ -45,6 +45,7 @@ type glGroup struct {
 	prefix  string   // prefix of the names in the generated program (for a second package in the same file)
 	funcs   []glFunc // functions to translate
 	externs []string // qualified names (pkg.Func) of calls that become SCallExt oracles
+	devirt  map[string]string // interface type name -> the one translated type whose methods its calls resolve to
 	more    []glGroup // further packages translated into the same file (their pkgDir/prefix/funcs/externs)
 }
 
@@ -164,6 +165,7 @@ type glTr struct {
 	byObj   map[types.Object]*glFn // translated functions of the group by their types.Func
 	fns     []*glFn
 	externs map[string]bool
+	externOut map[string]int
 }
 
 type glFn struct {
@@ -229,7 +231,13 @@ func glTranslatePart(repo string, g glGroup) (defs string, names, lemmas []strin
 		return "", nil, nil, err
 	}
 	t := &glTr{p: p, g: g, byObj: map[types.Object]*glFn{}, externs: map[string]bool{}}
+	t.externOut = map[string]int{}
 	for _, e := range g.externs {
+		if i := strings.Index(e, ":out"); i > 0 {
+			k := int(e[i+4] - '0')
+			e = e[:i]
+			t.externOut[e] = k
+		}
 		t.externs[e] = true
 	}
 	defer func() {
@@ -422,9 +430,17 @@ func isRefType(ty types.Type) bool {
 	return false
 }
 
+func (t *glTr) isDevirtIface(ty types.Type) bool {
+	if n, ok := ty.(*types.Named); ok {
+		_, ok := t.g.devirt[n.Obj().Name()]
+		return ok
+	}
+	return false
+}
+
 // does the function write through the parameter obj (a slice or pointer)?
 func (t *glTr) writesThrough(fn *glFn, obj types.Object) bool {
-	if obj == nil || !isRefType(obj.Type()) {
+	if obj == nil || !(isRefType(obj.Type()) || t.isDevirtIface(obj.Type())) {
 		return false
 	}
 	found := false
@@ -502,6 +518,16 @@ func (t *glTr) calleeOf(c *ast.CallExpr) (*glFn, []ast.Expr) {
 		if sel, ok := t.p.info.Selections[f]; ok && sel.Kind() == types.MethodVal {
 			if fn, ok := t.byObj[sel.Obj()]; ok {
 				return fn, append([]ast.Expr{f.X}, c.Args...)
+			}
+			// a method of an interface the group declares to be implemented by one translated type
+			if named, ok := sel.Recv().(*types.Named); ok {
+				if conc, ok := t.g.devirt[named.Obj().Name()]; ok {
+					for _, fn := range t.fns {
+						if fn.spec.recv == conc && fn.spec.name == f.Sel.Name {
+							return fn, append([]ast.Expr{f.X}, c.Args...)
+						}
+					}
+				}
 			}
 		}
 	}
@@ -729,6 +755,19 @@ func (t *glTr) expr(c *glCtx, e ast.Expr) string {
 				}
 				return r
 			}
+			if sy, ok := x.Y.(*ast.SelectorExpr); ok {
+				if pid, ok := sy.X.(*ast.Ident); ok {
+					if _, isPkg := t.p.info.Uses[pid].(*types.PkgName); isPkg {
+						if v, ok := t.p.info.Uses[sy.Sel].(*types.Var); ok && isErrorType(v.Type()) {
+							r := fmt.Sprintf("EErrIs (%s) %s", t.expr(c, x.X), glStr(pid.Name+"."+sy.Sel.Name))
+							if x.Op == token.NEQ {
+								r = "ENot (" + r + ")"
+							}
+							return r
+						}
+					}
+				}
+			}
 			if id, ok := x.Y.(*ast.Ident); ok {
 				if v, ok := t.p.info.Uses[id].(*types.Var); ok && v.Parent() == t.p.pkg.Scope() && isErrorType(v.Type()) {
 					r := fmt.Sprintf("EErrIs (%s) %s", t.expr(c, x.X), glStr(v.Name()))
@@ -761,6 +800,14 @@ func (t *glTr) expr(c *glCtx, e ast.Expr) string {
 		}
 		return fmt.Sprintf("ESlice (%s) %s %s", t.expr(c, x.X), t.optExpr(c, x.Low), t.optExpr(c, x.High))
 	case *ast.SelectorExpr:
+		if id, ok := x.X.(*ast.Ident); ok {
+			if _, isPkg := t.p.info.Uses[id].(*types.PkgName); isPkg {
+				if v, ok := t.p.info.Uses[x.Sel].(*types.Var); ok && isErrorType(v.Type()) {
+					return "EErr " + glStr(id.Name+"."+x.Sel.Name) // io.EOF and the like
+				}
+				t.fail(e, "qualified identifier %s.%s", id.Name, x.Sel.Name)
+			}
+		}
 		if sel, ok := t.p.info.Selections[x]; ok && sel.Kind() == types.FieldVal {
 			if len(sel.Index()) != 1 {
 				// promoted field through embedded structs: b.HashLen where b embeds BucketHeader
@@ -991,6 +1038,8 @@ func (t *glTr) callStmt(c *glCtx, x *ast.CallExpr, lhs []string) (string, int) {
 	nres := 1
 	if tup, ok := t.p.info.TypeOf(x).(*types.Tuple); ok {
 		nres = tup.Len()
+	} else if tv, ok := t.p.info.Types[x]; ok && tv.IsVoid() {
+		nres = 0
 	}
 	l := lhs
 	if l == nil {
@@ -998,7 +1047,15 @@ func (t *glTr) callStmt(c *glCtx, x *ast.CallExpr, lhs []string) (string, int) {
 			l = append(l, "LIgnore")
 		}
 	}
-	return fmt.Sprintf("SCallExt [%s] %s [%s]", strings.Join(l, "; "), glStr(name), strings.Join(as, "; ")), len(l)
+	nl := len(l)
+	// an external that writes through one of its arguments returns the new contents after its results
+	if k, ok := t.externOut[name]; ok {
+		if k >= len(x.Args) {
+			t.fail(x, "external %s: out-argument %d missing", name, k)
+		}
+		l = append(append([]string{}, l...), t.lvalOf(c, x.Args[k]))
+	}
+	return fmt.Sprintf("SCallExt [%s] %s [%s]", strings.Join(l, "; "), glStr(name), strings.Join(as, "; ")), nl
 }
 
 type glParam struct {
